@@ -1250,6 +1250,12 @@ package template
 //@   ensures tailshape: len(s) > 0 ==> forall(k, 0, len(s), !isnil(at(p.Cmds, len(p.Cmds) - len(s) + k)) && len(at(p.Cmds, len(p.Cmds) - len(s) + k).Args) == 1 && dyntypeis(at(at(p.Cmds, len(p.Cmds) - len(s) + k).Args, 0), "parse_IdentifierNode"))
 //@   ensures tailmerged: len(s) > 0 ==> forall(k, 0, len(s), old(PREDEF(p)) && ESCEQ(old(LASTID(p)), at(s, k)) ==> seqeq(asref(at(at(p.Cmds, len(p.Cmds) - len(s) + k).Args, 0), "parse_IdentifierNode").Ident, old(LASTID(p))))
 //@   ensures tailnames: len(s) > 0 ==> forall(k, 0, len(s), !(old(PREDEF(p)) && ESCEQ(old(LASTID(p)), at(s, k))) ==> seqeq(asref(at(at(p.Cmds, len(p.Cmds) - len(s) + k).Args, 0), "parse_IdentifierNode").Ident, at(s, k)))
+//@   ensures lenrule: len(s) > 0 ==> len(p.Cmds) == len(s) + old(len(p.Cmds)) + ite(old(SPECIALFORM(p)), 1, 0) - ite(old(DUPOF(p, s)), 1, 0)
+//@   ensures kept: len(s) > 0 ==> forall(k, 0, old(len(p.Cmds)) - ite(old(DUPOF(p, s)) && !old(SPECIALFORM(p)), 1, 0), at(p.Cmds, k) == old(at(p.Cmds, k)))
+//@   ensures specialcmd: len(s) > 0 && old(SPECIALFORM(p)) && !old(DUPOF(p, s)) ==> IDENTCMD(at(p.Cmds, 1), old(LASTID(p)))
+//@   ensures evalargs: len(s) > 0 && old(SPECIALFORM(p)) ==> dyntypeis(at(at(p.Cmds, 0).Args, 0), "parse_IdentifierNode") && seqeq(asref(at(at(p.Cmds, 0).Args, 0), "parse_IdentifierNode").Ident, "_evalArgs")
+//@   ensures evalrest: len(s) > 0 && old(SPECIALFORM(p)) ==> len(at(p.Cmds, 0).Args) == old(len(at(p.Cmds, 0).Args)) && forall(k, 1, len(at(p.Cmds, 0).Args), at(at(p.Cmds, 0).Args, k) == old(at(at(p.Cmds, 0).Args, k)))
+//@   ensures argskept: forallref(c, old(allocated(c)) && !(len(s) > 0 && old(SPECIALFORM(p)) && c == old(at(p.Cmds, 0))) ==> forall(k, 0, len(asref(c, "parse_CommandNode").Args), at(asref(c, "parse_CommandNode").Args, k) == old(at(asref(c, "parse_CommandNode").Args, k))))
 //@   ensures wf: forall(k, 0, len(p.Cmds), !isnil(at(p.Cmds, k)) && len(at(p.Cmds, k).Args) > 0)
 //@   ensures otherpipes: forallref(q, q != p ==> len(asref(q, "parse_PipeNode").Cmds) == old(len(asref(q, "parse_PipeNode").Cmds)) && forall(k, 0, len(asref(q, "parse_PipeNode").Cmds), at(asref(q, "parse_PipeNode").Cmds, k) == old(at(asref(q, "parse_PipeNode").Cmds, k))))
 //@   loop 1
